@@ -348,11 +348,38 @@ Definition tgt_keys (st : msettings) (j : jrow) : list cell := map (fun k => nth
 Definition fast_action (st : msettings) (j : jrow) : action :=
   case_table (m_wm st) (m_ins st) (m_ns st) (forallb is_some (src_keys st j)) (is_some (jid j)) (cond_m st j) (cond_d st j).
 
+(* can_use_create_plan *)
+Definition fast_path (st : msettings) : bool :=
+  match m_wm st with WmUpdateAll | WmUpdateIf _ | WmFail => true | WmDoNothing => false end
+  && negb (m_indexed st) && full_schema st
+  && match m_ns st with NsKeep => true | _ => false end.
+
+(* the indexed join is built with NullEquality::NullEqualsNull.  It joins only the target rows the
+   index lookup returns plus the unindexed fragments; the rows it leaves out match no source key and
+   could only show up as target-only rows, which do nothing under Keep (the only setting that takes
+   this path), so the model joins all target rows. *)
+Definition uses_index (st : msettings) : bool :=
+  negb (fast_path st) && m_indexed st && match m_ns st with NsKeep => true | _ => false end.
+(* Merger::extract_selections looks at the FIRST `on.len()` columns of each half of the joined batch
+   (not_all_null(batch, 0, num_keys) / not_all_null(batch, right_offset, num_keys)): "source_keys,
+   source_payload, target_keys, target_payload".  The source half is in the order of the source schema; the
+   target half is in source-schema order on the DataFrame joins and in dataset order behind TakeExec
+   (indexed join). *)
+Fixpoint insert_nat (x : nat) (l : list nat) : list nat :=
+  match l with
+  | [] => [x]
+  | y :: ys => if Nat.leb x y then x :: l else y :: insert_nat x ys
+  end.
+Definition sort_nat (l : list nat) : list nat := fold_right insert_nat [] l.
+Definition lkeys (st : msettings) : list nat := firstn (length (m_on st)) (m_scols st).
+Definition tcols (st : msettings) : list nat := if uses_index st then sort_nat (m_scols st) else m_scols st.
+Definition rkeys (st : msettings) : list nat := firstn (length (m_on st)) (tcols st).
+
 (* Merger::extract_selections + execute_batch: sides are recognised by "not all key columns NULL";
    `when_matched != DoNothing` updates (so Fail is treated like UpdateAll here) *)
 Definition merger_action (st : msettings) (j : jrow) : action :=
-  let in_left := existsb is_some (src_keys st j) in
-  let in_right := existsb is_some (tgt_keys st j) in
+  let in_left := existsb is_some (map (src_get (m_scols st) (js j)) (lkeys st)) in
+  let in_right := existsb is_some (map (fun c => nth c (jt j) None) (rkeys st)) in
   if in_left && in_right then
     match m_wm st with
     | WmDoNothing => ANothing
@@ -368,12 +395,6 @@ Definition merger_action (st : msettings) (j : jrow) : action :=
     end
   else ANothing.
 
-(* can_use_create_plan *)
-Definition fast_path (st : msettings) : bool :=
-  match m_wm st with WmUpdateAll | WmUpdateIf _ | WmFail => true | WmDoNothing => false end
-  && negb (m_indexed st) && full_schema st
-  && match m_ns st with NsKeep => true | _ => false end.
-
 Definition row_action (st : msettings) (j : jrow) : action :=
   if fast_path st then fast_action st j else merger_action st j.
 
@@ -382,12 +403,6 @@ Definition join_kind (st : msettings) : jkind :=
   if fast_path st then (if m_ins st then JSource else JInner)
   else if full_schema st then JFull                       (* also the indexed join: HashJoinExec JoinType::Full *)
   else if m_ins st then JSource else JInner.
-(* the indexed join is built with NullEquality::NullEqualsNull.  It joins only the target rows the
-   index lookup returns plus the unindexed fragments; the rows it leaves out match no source key and
-   could only show up as target-only rows, which do nothing under Keep (the only setting that takes
-   this path), so the model joins all target rows. *)
-Definition uses_index (st : msettings) : bool :=
-  negb (fast_path st) && m_indexed st && match m_ns st with NsKeep => true | _ => false end.
 Definition join_null_eq (st : msettings) : bool := uses_index st.
 
 Inductive merr := EDup | EFail | EUnsupported | EOther | EPanic.
@@ -594,6 +609,12 @@ Definition Known_C12_null_key_target_rows_kept (st : msettings) (tgt : list row)
 (* off the fast path WhenMatched::Fail is executed as UpdateAll *)
 Definition Known_C12_fail_off_fast_path (st : msettings) : bool :=
   match m_wm st with WmFail => negb (fast_path st) | _ => false end.
+
+(* off the fast path the key columns must be the first columns of the source schema (see lkeys / rkeys) *)
+Definition same_set (a b : list nat) : bool :=
+  forallb (fun x => existsb (Nat.eqb x) b) a && forallb (fun x => existsb (Nat.eqb x) a) b.
+Definition Known_C12_key_columns_not_first (st : msettings) : bool :=
+  negb (fast_path st) && negb (same_set (lkeys st) (m_on st) && same_set (rkeys st) (m_on st)).
 
 (* WhenMatched::UpdateIf with a source that has only some of the columns panics (see unzip_panics) *)
 Definition Known_C12_update_if_partial_schema_panics (st : msettings) : bool := unzip_panics st.
